@@ -116,17 +116,25 @@ def check(cx):
                    "a conflict reported by search_index no longer produces UniqueConstraintViolated")
     fn_ = p.fns.get(checks.get("validate_not_null_constraints", ""))
     if fn_:
-        reads_flag = any(any(isinstance(pe, str) and pe.startswith(".is_non_null:") for pe in (op.get("c") or op.get("m") or [])[1:])
-                         for b in fn_.blocks for s in b["stmts"] for op in (s["rv"].get("o") or []) if isinstance(s["rv"].get("o"), list)) or \
-            any(isinstance(pe, str) and pe.startswith(".is_non_null:") for b in fn_.blocks if b["term"]["t"] == "switch"
-                for pe in (b["term"]["o"].get("c") or b["term"]["o"].get("m") or [])[1:])
+        # the test may be the loop body or the predicate closure of a search (`.find(|(col, v)| col.is_non_null && v.is_null())`)
+        fam = [fn_] + [p.fn(c) for c in p.closure_children.get(fn_.id, ())]
+
+        def reads(g):
+            return any(any(isinstance(pe, str) and pe.startswith(".is_non_null:") for pe in (op.get("c") or op.get("m") or [])[1:])
+                       for b in g.blocks for s in b["stmts"] for op in (s["rv"].get("o") or []) if isinstance(s["rv"].get("o"), list)) or \
+                any(isinstance(pe, str) and pe.startswith(".is_non_null:") for b in g.blocks if b["term"]["t"] == "switch"
+                    for pe in (b["term"]["o"].get("c") or b["term"]["o"].get("m") or [])[1:])
+        reads_flag = any(reads(g) for g in fam)
         isnull = [c for c in fn_.calls() if c.callee.endswith("::is_null")]
+        # calls of fn_ that run a closure of the family which asks is_null (and reads the flag)
+        via = [c for c in fn_.calls() if any(t in p.raw_fns and p.raw_fns[t].kind == "closure" and (p.raw_fns[t].root or "") == (fn_.root or fn_.id)
+                                              and any(x.callee.endswith("::is_null") for x in p.fn(t).calls()) for t in p.targets(c))]
         errs = [s for _, s in core.region_aggregates(fn_, range(len(fn_.blocks))) if s["rv"].get("variant") == "NonNullConstraintViolated"]
-        good = reads_flag and bool(isnull) and bool(errs)
+        good = reads_flag and bool(isnull or via) and bool(errs)
         if good:
             # the error is built only where is_null returned true: the Err region is dominated by the is_null test
             eb = [bi for bi, s in core.region_aggregates(fn_, range(len(fn_.blocks))) if s["rv"].get("variant") == "NonNullConstraintViolated"]
-            good = all(any(fn_.dominates(c.bb, b) for c in isnull) for b in eb)
+            good = all(any(fn_.dominates(c.bb, b) for c in isnull + via) for b in eb)
         cx.verdict(good, r3, "not-null:flag-and-value", fn_.where(), "tests is_non_null and is_null, then errors",
                    "validate_not_null_constraints no longer tests the column flag and the value before rejecting")
         # every column is visited: the loop is over schema.iter_columns()
